@@ -27,6 +27,11 @@ type Opt struct {
 	NoRAE     bool // ReturnCallAfterError pinned to false
 	Direct    bool // CallType pinned to DirectCall
 	NoCall    bool // no attached contract call
+	NoPause   bool // no pause flags generated
+	Split1    bool // single-byte nonce split in generated metadata (quick tier)
+	NoURIs    bool // generated metadata carries no URIs
+	SysDest   bool // allow the system account address as transfer destination (finding F10's class)
+	Presence  int  // account presence: 0 free, 1 (S,D), 2 (S,nil), 3 (nil,D)
 	MultiK    int  // multi-transfer: number of tokens (0: 1..2)
 	CrossOnly bool // NFT/multi sender side: the destination is pinned to another shard
 	Wild      bool // C11: arbitrary argument counts and adversarial lengths per argument role
@@ -111,7 +116,7 @@ func schedule(tag string) *vmcommon.GasCost {
 }
 
 func newScn(name string, o Opt) *Scn {
-	cfg := world.Config{Faults: o.Faults, CheckInv: o.CheckInv, NoFrozenGen: o.NoFrozen, MetaFieldLen: 1, MaxURIs: 1, Thin: o.Thin,
+	cfg := world.Config{Faults: o.Faults, CheckInv: o.CheckInv, NoFrozenGen: o.NoFrozen, MetaFieldLen: 1, MaxURIs: 1, Thin: o.Thin, NoPauseGen: o.NoPause, Split1: o.Split1 && !verif.Thorough(),
 		GasEnough: o.GasEnough, NoReturnAfterError: o.NoRAE, DirectCallOnly: o.Direct}
 	if o.RealRoles {
 		cfg.RolesMax = 2
@@ -119,6 +124,9 @@ func newScn(name string, o Opt) *Scn {
 	}
 	small = o.Small || o.Wild // wild scenarios discard the typical arguments: build them in their smallest shape
 	noCall = o.NoCall || o.Wild
+	if o.NoURIs {
+		cfg.MaxURIs = 0
+	}
 	s := &Scn{Name: name, O: o, W: world.New(cfg)}
 	s.Roles = &world.RolesStub{W: s.W}
 	return s
@@ -148,6 +156,15 @@ func (s *Scn) finishPricing() {
 }
 
 func addr32(tag string) []byte { return verif.Bytes(tag, 32) }
+
+// notSystem excludes the system account address 0xff…ff as a transfer destination: tokens
+// sent there are stored under the key of the pause flag (finding F10), which is decided by
+// its own harness (C15_SystemAccountDestination).
+func (s *Scn) notSystem(dest []byte) {
+	if !s.O.SysDest && len(dest) == 32 {
+		verif.Assume(!verif.BytesEq(dest, vmcommon.SystemAccountAddress))
+	}
+}
 
 func (s *Scn) userSender() {
 	s.Snd = s.W.NewAccount("snd", addr32("snd.addr"))
@@ -385,7 +402,9 @@ func scnNFTAddURI(o Opt) *Scn {
 	s.Fn, _ = builtInFunctions.NewESDTNFTAddUriFunc(g.BuiltInCost.ESDTNFTAddURI, g.BaseOperationCost, s.W.Codec, s.W.Pause, s.rolesHandler(), verif.U32("activation"), s.W.Epochs)
 	s.finishPricing()
 	s.Cost, s.Priced = s.Gas.BuiltInCost.ESDTNFTAddURI, true
-	s.Charge, s.ChargeOK = s.Cost+argsLen(args[2:])*s.Gas.BaseOperationCost.StorePerByte, true
+	if len(args) >= 2 {
+		s.Charge, s.ChargeOK = s.Cost+argsLen(args[2:])*s.Gas.BaseOperationCost.StorePerByte, true
+	}
 	return s
 }
 
@@ -398,7 +417,9 @@ func scnNFTUpdateAttributes(o Opt) *Scn {
 	s.Fn, _ = builtInFunctions.NewESDTNFTUpdateAttributesFunc(g.BuiltInCost.ESDTNFTUpdateAttributes, g.BaseOperationCost, s.W.Codec, s.W.Pause, s.rolesHandler(), verif.U32("activation"), s.W.Epochs)
 	s.finishPricing()
 	s.Cost, s.Priced = s.Gas.BuiltInCost.ESDTNFTUpdateAttributes, true
-	s.Charge, s.ChargeOK = s.Cost+uint64(len(args[2]))*s.Gas.BaseOperationCost.StorePerByte, true
+	if len(args) >= 3 {
+		s.Charge, s.ChargeOK = s.Cost+uint64(len(args[2]))*s.Gas.BaseOperationCost.StorePerByte, true
+	}
 	return s
 }
 
@@ -527,7 +548,11 @@ func scnCreateRoleTransfer(o Opt) *Scn {
 
 func (s *Scn) sndDstPattern() {
 	// account presence ∈ {(S,D), (S,nil), (nil,D)}; (S,D) may be the same account
-	switch verif.Choose("presence", 3) {
+	p := s.O.Presence - 1
+	if p < 0 {
+		p = verif.Choose("presence", 3)
+	}
+	switch p {
 	case 0:
 		s.Snd = s.W.NewAccount("snd", addr32("snd.addr")).WithFields()
 		s.Dst = s.W.NewAccount("dst", addr32("dst.addr")).WithFields()
@@ -652,6 +677,11 @@ func scnTransfer(o Opt) *Scn {
 	s.sndDstPattern()
 	caller, rcv := s.callerRecipient()
 	s.DstAddr = rcv
+	s.notSystem(rcv)
+	if s.Dst == nil {
+		// the node passes no destination account exactly when the recipient lives elsewhere
+		verif.Assume(s.W.Shards.ComputeId(rcv) != s.W.Shards.Self)
+	}
 	s.In = s.W.Input(caller, rcv, args)
 	g := s.prices()
 	f, _ := builtInFunctions.NewESDTTransferFunc(g.BuiltInCost.ESDTTransfer, s.W.Codec, s.W.Pause, s.W.Shards)
@@ -698,6 +728,7 @@ func scnNFTTransfer(o Opt) *Scn {
 	}
 	s.userSender()
 	s.DstAddr = verif.BytesOf("dest", 32, 31)
+	s.notSystem(s.DstAddr)
 	args := attachedCall("t", [][]byte{s.Tok, s.NonceB, s.Amt, s.DstAddr})
 	if o.CrossOnly {
 		s.W.Shards.Set(s.DstAddr, 1)
@@ -757,6 +788,7 @@ func scnMultiTransfer(o Opt) *Scn {
 	}
 	s.userSender()
 	s.DstAddr = verif.BytesOf("dest", 32, 31)
+	s.notSystem(s.DstAddr)
 	args := [][]byte{s.DstAddr, {byte(k)}}
 	for i := 0; i < k; i++ {
 		it := MultiItem{Tok: tokenID("tok"), NonceB: nonceArg("nonce"), Amt: amount("amt")}
